@@ -91,11 +91,68 @@ def run_impl(p):
             if f == "counts":
                 return [int(x) for x in ra.col_counts()]
             return ra.get_column_values(p["j"])
-    return guarded(g)
+    def h():
+        # the same function on the same object: first call; the operand must be unchanged (rows, lengths, cells); after a write
+        # (fill / a cell through the flat view / an item assignment) the function must see the new cells
+        from npstructures import RaggedArray
+        vals, _ = _rows(p)
+        ra = RaggedArray(vals.copy(), list(p["lens"]))
+        first = _call(p, ra)
+        unchanged = bool([int(l) for l in ra.lengths] == list(p["lens"]) and np.array_equal(np.asarray(ra.ravel()).view(np.uint8), vals.view(np.uint8))
+                         and [len(r) for r in ra.tolist()] == list(p["lens"]))
+        _write(p, ra)
+        second = _call(p, ra)
+        return {"k": "obs", "value": canon(first), "operand_unchanged": canon(unchanged), "after_write": canon(second)}
+    return guarded(h)
+
+
+def _call(p, ra):
+    f = p["f"]
+    with np.errstate(all="ignore"), warnings.catch_warnings():
+        warnings.simplefilter("ignore")
+        if f == "sum":
+            return ra.sum(axis=0)
+        if f == "np.sum":
+            return np.sum(ra, axis=0)
+        if f == "mean":
+            return ra.mean(axis=0)
+        if f == "counts":
+            return [int(x) for x in ra.col_counts()]
+        return ra.get_column_values(p["j"])
+
+
+def _write(p, obj):
+    """the write of the history, on a RaggedArray (implementation) or on the list of numpy rows (reference)"""
+    how = ["fill", "ravel", "item"][p["vseed"] % 3]
+    one = np.ones(1, dtype=np.dtype(p["dtype"]))[0]
+    nonempty = [i for i, l in enumerate(p["lens"]) if l > 0]
+    if isinstance(obj, list):
+        if how == "fill" or not nonempty:
+            for r in obj:
+                r[...] = one
+        elif how == "ravel":
+            obj[nonempty[-1]][-1] = one          # the last cell of the flat buffer
+        else:
+            obj[nonempty[0]][0] = one
+        return
+    if how == "fill" or not nonempty:
+        obj.fill(one)
+    elif how == "ravel":
+        obj.ravel()[-1] = one
+    else:
+        obj[nonempty[0], 0] = one
 
 
 def oracle(p):
     vals, rows = _rows(p)
+    rows = [r.copy() for r in rows]
+    first = _oracle_value(p, rows)
+    _write(p, rows)
+    return {"k": "obs", "value": first, "operand_unchanged": canon(True), "after_write": _oracle_value(p, rows)}
+
+
+def _oracle_value(p, rows):
+    vals = _vals(p)
     w = max(p["lens"])
     f = p["f"]
     dt = vals.dtype
@@ -152,15 +209,19 @@ def decode_lean(p, resp):
         if isinstance(j, dict) and j.get("refuse"):
             return refuse()
         if f == "counts":
-            return canon([int(x) for x in j])
+            return {"k": "obs", "value": canon([int(x) for x in j])}
         if f == "column":
-            return canon(np.array([vals[i] for i in j["v"]], dtype=vals.dtype))
+            return {"k": "obs", "value": canon(np.array([vals[i] for i in j["v"]], dtype=vals.dtype))}
         rdt = np.dtype("int64") if vals.dtype.kind == "i" else np.dtype("uint64")
-        return canon(np.array(j, dtype=rdt))
+        return {"k": "obs", "value": canon(np.array(j, dtype=rdt))}
     return conv(resp["L"]), conv(resp["S"])
 
 
-same = engine.same_cells
+def same(a, b):
+    if isinstance(a, dict) and isinstance(b, dict) and a.get("k") == "obs" and b.get("k") == "obs":
+        ks = (set(a) & set(b)) - {"k"}
+        return bool(ks) and all(engine.same_cells(a[k], b[k]) for k in ks)
+    return engine.same_cells(a, b)
 
 
 def matches_finding(f, p, impl, expect):
